@@ -635,8 +635,7 @@ func RunCase(t *testing.T, lg *go9p.Logger, cfg Cfg, seed int64, fn func(k *Case
 		}
 		if k.CloseBy != "" {
 			// the server ended the connection; now the client goes away too
-			_ = k.ch.cli.Close()
-			c.Wait()
+			c.CloseQuiet(k.ch)
 			k.Complete(2000)
 		}
 		c.Wait()
